@@ -5,6 +5,8 @@ import (
 	"math/big"
 	"sort"
 
+	"verif/harness/internal/wire"
+
 	"verif/harness/internal/core"
 	"verif/harness/internal/gen"
 	"verif/harness/internal/mon"
@@ -18,7 +20,7 @@ func init() {
 			"after every event: GetCount exact, IsEmpty iff nothing with positive weight, GetMin/MaxValue bitwise the true extremes, GetSum within (16+8L)*2^-53*sum|v*w| of the exact sum (L = lossy events), every quantile == clamp(plain answer, min, max) and inside [min,max], bins equal to the model when defined. " +
 			"Non-trivial = history with >=1 merge-or-decode and >=1 of {Reweight, Clear, Copy, ChangeMapping}; distinct = hash of the history.",
 		Cases:     core.Scale(30000, 800000),
-		Mandatory: []string{"oracle.stat_checks", "oracle.sum_checks", "oracle.quantile_clamp_checks", "event.MergeWith", "event.DecodeAndMergeWith", "event.Reweight", "event.ChangeMapping", "event.Encode->Decode", "event.Copy->continue", "event.Clear", "adversarial_sum_cases", "zero_weight_adds"},
+		Mandatory: []string{"oracle.stat_checks", "oracle.sum_checks", "oracle.quantile_clamp_checks", "event.MergeWith", "event.DecodeAndMergeWith", "event.Reweight", "event.ChangeMapping", "event.Encode->Decode", "event.Copy->continue", "event.Clear", "adversarial_sum_cases", "adversarial_copy_chains", "zero_weight_adds"},
 		Assumptions: []string{
 			"dyadic weights under the exactness budget make the count exact; sum bound calibrated (DESIGN §3.6)",
 			"a ChangeMapping may round min/max like fl(extreme*factor)",
@@ -31,7 +33,7 @@ func init() {
 		Rule: "case = seeded history (adds, weighted adds, merges, decodes, copies, clears, round trips) on either sketch variant over all 5 store kinds and all mapping kinds, with data shapes all-negative, all-zero, zero+negative, single value, sub-minimum only, mixed; after every event: count == zero + both sides (exact), IsEmpty iff count==0, min/max in the bin of the true (clamped for collapsing stores) extreme or 0, " +
 			"quantiles non-decreasing over a sorted q grid and within [min,max], batch == singles, same-signed data: |GetSum - true sum| <= (alpha+64u)|true sum|, ForEach yields each non-empty bin once with weight>0 summing exactly to count and stops after exactly min(k,#bins) calls. Non-trivial = special data shape or history with merge/decode; distinct = hash of the history.",
 		Cases:     core.Scale(60000, 1500000),
-		Mandatory: []string{"oracle.coherence_checks", "oracle.foreach_stop_checks", "oracle.sum_checks", "oracle.monotone_checks", "shape.neg", "shape.zeros", "shape.zeros+neg", "shape.single", "shape.submin", "oracle.extreme_checks.collapsed"},
+		Mandatory: []string{"oracle.coherence_checks", "oracle.foreach_stop_checks", "oracle.sum_checks", "oracle.monotone_checks", "shape.neg", "shape.zeros", "shape.zeros+neg", "shape.single", "shape.submin", "oracle.extreme_checks.collapsed", "event.refused_call", "event.decode_zero_block"},
 		Run:       runC12,
 	})
 	core.Register(&core.Prop{
@@ -197,6 +199,11 @@ func runC10(c *core.Ctx) {
 		}
 		h.weights[opAdd] = 60
 		h.weights[opChangeMapping] = 0
+		if r.P(0.4) {
+			// a history that keeps working on copies (copy, add, copy, add, ...)
+			h.weights = [opNumKinds]int{60, 0, 0, 0, 0, 0, 0, 40, 0, 0}
+			c.Count("adversarial_copy_chains", 1)
+		}
 	}
 	n := r.Range(1, 60)
 	if adversarial {
@@ -534,6 +541,51 @@ func runC12(c *core.Ctx) {
 		}
 		if op.kind == opMerge || op.kind == opDecodeMerge || op.kind == opRoundTrip {
 			mergeOrDecode = true
+		}
+		if r.P(0.06) {
+			// a refused call in between: it must absorb nothing and leave every summary coherent
+			k := st.s.I()
+			var err error
+			what := ""
+			c.Guard("refused call", func() {
+				switch r.Intn(4) {
+				case 0:
+					what, err = "Reweight(0)", k.Reweight(0)
+				case 1:
+					what, err = "Reweight(-2)", k.Reweight(-2)
+				case 2:
+					what, err = "Add(NaN)", k.Add(math.NaN())
+				default:
+					what, err = "AddWithCount(1, -1)", k.AddWithCount(st.m.ClampIn(1), -1)
+				}
+			})
+			c.Logf("refused call %s -> %v", what, err)
+			c.Count("event.refused_call", 1)
+			if err == nil {
+				c.Failf("coherence.refused_call_accepted", "%s returned no error", what)
+			}
+		}
+		if r.P(0.04) {
+			// a well-formed payload holding only zero counts: absorbs nothing
+			idx := 0
+			if ks := st.mdl.Pos.Keys(); len(ks) > 0 {
+				idx = ks[r.Intn(len(ks))] + r.Range(-40, 40)
+			}
+			zb := wire.Block{Flag: wire.Flag(wire.TypePositive, wire.SubBinsContiguous), First: int64(idx), Stride: 1, Counts: make([]float64, r.Range(1, 40))}
+			if r.Bool() {
+				zb.Flag = wire.Flag(wire.TypeNegative, wire.SubBinsContiguous)
+				if ks := st.mdl.Neg.Keys(); len(ks) > 0 {
+					zb.First = int64(ks[r.Intn(len(ks))] + r.Range(-40, 40))
+				}
+			}
+			payload := wire.Emit([]wire.Block{zb})
+			var err error
+			c.Guard("DecodeAndMergeWith(zero block)", func() { err = st.s.I().DecodeAndMergeWith(payload) })
+			c.Logf("DecodeAndMergeWith(contiguous block of %d zero counts at %d) -> %v", len(zb.Counts), zb.First, err)
+			c.Count("event.decode_zero_block", 1)
+			if err != nil {
+				c.Failf("coherence.zero_block_rejected", "decoding a well-formed block of zero counts returned %v", err)
+			}
 		}
 		if checkEvery > 1 && oi%checkEvery != 0 && oi != len(ops)-1 {
 			continue
